@@ -488,7 +488,7 @@ class _FakeUUID:
 
 
 def run_bane(filename, cfg, sched, ch, faults=None, fill="payload", ncpu=16, cores_override=None,
-             max_steps=60000, wall_cap_s=60.0, keep_arrays=True):
+             max_steps=60000, wall_cap_s=60.0, keep_arrays=True, setup_fault=None):
     """Run BANE.filter_image once under the kernel.  Every decision comes from ``ch``."""
     BANE = setup()
     import multiprocessing
@@ -503,6 +503,15 @@ def run_bane(filename, cfg, sched, ch, faults=None, fill="payload", ncpu=16, cor
     sim = SimMP(k, ncpu=cfg.get("ncpu", ncpu), pick=pick)
     sandbox = _state["sandbox"]
     _reset_sandbox(sandbox, k, fill)
+    # a failure of the parent's own set-up: the n-th shared-memory segment cannot be created (/dev/shm full), or the
+    # operating system refuses to start the pool's worker processes
+    sim.pool_start_error = None
+    sim.pool_start_fired = False
+    if setup_fault is not None:
+        if setup_fault[0] == "shm":
+            sandbox.fail_create = {setup_fault[1]: OSError(errno.ENOSPC, "No space left on device")}
+        elif setup_fault[0] == "pool":
+            sim.pool_start_error = OSError(errno.EAGAIN, "Resource temporarily unavailable")
 
     hot_stride = sched.get("hot_stride", 0)
     line_mode = sched.get("line_mode", 0)
@@ -639,6 +648,12 @@ def run_bane(filename, cfg, sched, ch, faults=None, fill="payload", ncpu=16, cor
     res.rescues = list(k.rescues)
     res.blocked_at_end = list(k.blocked_at_end)
     res.fired = list(plan.fired)
+    if sim.pool_start_fired:
+        res.fired.append(dict(kind="setup", task="main", site="Pool()", k=0, at="setup", t=0.0))
+    for op in sandbox.ops:
+        if op[0] == "create-failed":
+            res.fired.append(dict(kind="setup", task="main", site="SharedMemory(create) " + op[1].split("_")[0], k=0,
+                                  at="setup", t=0.0))
     res.sim = sim
     res.used_sim = bool(sim.contexts or sim.pools)
     res.layout = None
